@@ -239,7 +239,7 @@ impl Property for C11 {
             })
             .collect();
         let mut chooser = make_chooser(src, nthreads, total * 5 + 4, rep);
-        let exec = run(threads, chooser.as_mut(), 4000);
+        let exec = run(threads, chooser.as_mut(), 12_000);
         drop(chooser);
         match &exec.verdict {
             ExecVerdict::Completed => {}
